@@ -18,6 +18,7 @@ use vcommon::{hash64, Ctx, Fail, Obs};
 
 pub const SUB: &str = "variants-agree";
 pub const SUB_PROBE: &str = "known-probe";
+pub const SUB_CELLS: &str = "operator-cell-twins";
 
 #[derive(Clone, Debug, PartialEq, Eq, Hash, Serialize, Deserialize)]
 pub struct Case22 {
@@ -89,6 +90,8 @@ fn role_changed(base: &Prog, bs: &Shape, var: &Prog, vs: &Shape, origin: &[Optio
 }
 
 struct GroupPlan {
+    /// which sub-check the group belongs to
+    sub: &'static str,
     case: Case22,
     members: Vec<Member>,
     origins: Vec<Vec<Option<usize>>>,
@@ -253,7 +256,7 @@ fn plan_group(case: Case22, origins: Vec<Vec<Option<usize>>>) -> GroupPlan {
             }
         }
     }
-    GroupPlan { case, members, origins, nontrivial }
+    GroupPlan { sub: SUB, case, members, origins, nontrivial }
 }
 
 /// Compile and run a list of groups in one batch; returns (rejected, runs) keyed by group.
@@ -435,6 +438,7 @@ changed its pull/push role or the set of operators sharing its subgraph in the v
             }
         };
         ctx.check_all::<Case22, _, _>(SUB, Vec::<Case22>::new(), body);
+        ctx.check_all::<Case22, _, _>(SUB_CELLS, Vec::<Case22>::new(), body);
         ctx.check_all::<Case22, _, _>(SUB_PROBE, Vec::<Case22>::new(), body);
         return;
     }
@@ -455,14 +459,65 @@ changed its pull/push role or the set of operators sharing its subgraph in the v
     let (mut build_s, mut run_s, mut hangs, mut missing) = (0.0, 0.0, 0u64, 0u64);
     let mut seen = BTreeSet::new();
     let mut remaining = n_groups;
-    let mut failures: Vec<(Fail, Case22)> = vec![];
+    let mut failures: Vec<(&'static str, Fail, Case22)> = vec![];
     let mut rewrite_kinds: BTreeMap<String, u64> = BTreeMap::new();
-    'outer: while remaining > 0 {
+    // (1) per-operator cells: the minimal program of every (operator, persistence) cell against its
+    // push-side twin (behind tee()) and one randomly rewritten twin
+    let mut cell_groups: Vec<GroupPlan> = vec![];
+    {
+        let mut rng0 = Rng::new(ctx.seed_for(SUB_CELLS) ^ 0x2222);
+        let n_cell_hist = tier.pick(5, 16);
+        for cell in crate::gen::gen_cells(&mut rng0) {
+            let base = cell.direct;
+            let Ok(a) = analyze(&base) else { continue };
+            let mut programs = vec![base.clone()];
+            let mut descs = vec![vec![]];
+            let mut origins = vec![vec![]];
+            if let Some(pp) = cell.after_tee {
+                programs.push(pp);
+                descs.push(vec![format!("tee() with a null() branch inserted before {}", cell.label)]);
+                origins.push(vec![]);
+            }
+            if let Some(v) = make_variant(&mut rng0, &base, &a, 1) {
+                if !programs.contains(&v.prog) {
+                    programs.push(v.prog);
+                    descs.push(v.desc);
+                    origins.push(v.origin);
+                }
+            }
+            if programs.len() < 2 {
+                continue;
+            }
+            let mut scripts = vec![];
+            for _ in 0..n_cell_hist {
+                let s = script_of_history(&crate::gen::gen_history_dense(&mut rng0, &base.sources), Run::Tick);
+                if run_script(&base, &s).invalid.is_some() {
+                    envelope += 1;
+                    continue;
+                }
+                scripts.push(s);
+            }
+            if scripts.is_empty() {
+                continue;
+            }
+            let mut g = plan_group(Case22 { programs, descs, scripts }, origins);
+            g.sub = SUB_CELLS;
+            if let Some(why) = known_exclusion(&g.case.programs, &g.members) {
+                *excluded_known.entry(why.to_string()).or_default() += 1;
+                continue;
+            }
+            cell_groups.push(g);
+        }
+    }
+    let mut first_round = true;
+    'outer: while remaining > 0 || first_round {
         let this = remaining.min(chunk);
         remaining -= this;
-        let mut groups = vec![];
+        let mut groups = if first_round { std::mem::take(&mut cell_groups) } else { vec![] };
+        let n_cells_here = groups.len();
+        first_round = false;
         let mut guard = 0;
-        while groups.len() < this && guard < this * 20 {
+        while groups.len() < this + n_cells_here && guard < this * 20 {
             guard += 1;
             let base = gen_prog(&mut rng, &cov, &cfg);
             if !seen.insert(hash64(&base)) {
@@ -551,12 +606,12 @@ changed its pull/push role or the set of operators sharing its subgraph in the v
                     obs.class(d.split(" before").next().unwrap_or(d).split(" (node").next().unwrap_or(d).to_string());
                 }
                 let h = hash64(&(&g.case.programs[0], &g.case.programs[k], &g.case.scripts[si]));
-                ctx.record(SUB, h, &obs, || {
+                ctx.record(g.sub, h, &obs, || {
                     json!({"base": g.members[0].dfir, "variant": g.members[k].dfir, "rewrites": g.case.descs[k]})
                 });
             }
             if let Err((f, k, si)) = res {
-                failures.push((f, shrink_group(&g.case, k, si)));
+                failures.push((g.sub, f, shrink_group(&g.case, k, si)));
             }
             let _ = &g.origins;
         }
@@ -565,10 +620,9 @@ changed its pull/push role or the set of operators sharing its subgraph in the v
         }
     }
     let mut reported = BTreeSet::new();
-    for (f, case) in failures {
+    for (sub, f, case) in failures {
         if reported.insert(f.sig.clone()) && reported.len() <= 3 {
-            // shrink the group to the base and the one disagreeing variant where possible
-            ctx.report(SUB, &f, serde_json::to_value(&case).unwrap());
+            ctx.report(sub, &f, serde_json::to_value(&case).unwrap());
         }
     }
     // probes for the known findings
